@@ -14,10 +14,10 @@ import (
 	sabi "github.com/google/go-sev-guest/abi"
 	cpb "github.com/google/go-sev-guest/proto/check"
 	spb "github.com/google/go-sev-guest/proto/sevsnp"
+	sevtest "github.com/google/go-sev-guest/testing"
 	tabi "github.com/google/go-tdx-guest/abi"
 	tpb "github.com/google/go-tdx-guest/proto/tdx"
 	"github.com/google/go-tdx-guest/testing/testdata"
-	sevtest "github.com/google/go-sev-guest/testing"
 	tpmpb "github.com/google/go-tpm-tools/proto/attest"
 	"google.golang.org/protobuf/proto"
 )
